@@ -280,6 +280,16 @@ class Check:
         self.evaluations += len(ops)
         return impl, model, dis
 
+    def corpus(self):
+        """Minimised past failures and witnesses of known findings: always run first."""
+        d = os.path.join(ROOT, "corpus", self.prop)
+        out = []
+        if os.path.isdir(d):
+            for f in sorted(os.listdir(d)):
+                out += [l.strip() for l in open(os.path.join(d, f)) if l.strip() and not l.startswith("#")]
+        self.cov["corpus_size"] = len(out)
+        return out
+
     def count(self, key, nontrivial=True):
         if nontrivial:
             self.distinct.add(key)
